@@ -71,6 +71,27 @@ def gen_graph(r, n, directed, multi, wmode, dense=False, allow_dups=True):
     return spec, list(listed), edges
 
 
+def gadget_tie_then_improve(r, names):
+    """a target first reached along two tied paths and later along a strictly shorter one (the branch of
+    the weighted Brandes stage that must reset the path count), embedded among a few random extra edges"""
+    s_, a, b_, c_, x, t = names[:6]
+    w1 = r.pick([1, 1, 2])
+    wa = r.pick([2, 3])
+    wc = w1 + r.pick([0, 1])
+    wx = max(1, (w1 + wa) - wc - r.pick([1, 1, 2]))
+    if wc + wx >= w1 + wa:
+        wx = 1
+        wc = w1
+    es = [(s_, a, w1), (s_, b_, w1), (a, x, wa), (b_, x, wa), (s_, c_, wc), (c_, x, wx), (x, t, r.pick([1, 2]))]
+    es = r.shuffle(es) if r.below(2) else es
+    for _ in range(r.below(3)):
+        u, v = r.pick(names), r.pick(names)
+        if u != v and not _same(True, (u, v), [(e[0], e[1]) for e in es]) and \
+                not _same(True, (v, u), [(e[0], e[1]) for e in es]):
+            es.append((u, v, 3))
+    return es
+
+
 def _same(directed, p, pairs):
     for q in pairs:
         if q == p or (not directed and q == (p[1], p[0])):
@@ -78,11 +99,22 @@ def _same(directed, p, pairs):
     return False
 
 
+def h_wdiv(w, wdiv):
+    """harness weight token; with wdiv != 1 the weight is w/wdiv (a dyadic rational, exact in binary64)
+    passed as the bit pattern of the f64 (flag 2)"""
+    if w is None or wdiv == 1:
+        return hist.h_w(w)
+    import struct
+    bits = struct.unpack(">q", struct.pack(">d", float(Fraction(w, wdiv))))[0]
+    return "2 %d" % bits
+
+
 def to_harness_graph(c):
+    wdiv = c.get("wdiv", 1)
     lines = ["spec %d %d %d %d %d %d" % tuple(c["spec"]),
              "nodes %d %s" % (len(c["nodes"]), " ".join(str(x) for x in c["nodes"])),
              "edges %d %s" % (len(c["edges"]),
-                              " ".join("%d %d %s" % (u, v, hist.h_w(w)) for u, v, w in c["edges"]))]
+                              " ".join("%d %d %s" % (u, v, h_wdiv(w, wdiv)) for u, v, w in c["edges"]))]
     return lines
 
 
@@ -101,12 +133,15 @@ def effective(c):
     new_from_nodes_and_edges; for undirected graphs both orientations are present.
     ok=False when construction must fail (self-loop / duplicate under an Error policy)."""
     directed, multi, selfloops, dd, ms, slf = c["spec"]
+    wdiv = c.get("wdiv", 1)
     nodes = []
     for x in c["nodes"]:
         if x not in nodes:
             nodes.append(x)
     w = {}
     for (u, v, wt) in c["edges"]:
+        if wt is not None and wdiv != 1:
+            wt = Fraction(wt, wdiv)
         if not selfloops and u == v:
             if slf == 0:
                 return False, nodes, w
@@ -155,8 +190,12 @@ def shrink_graph(c):
 
 
 def graph_from_json(j):
-    return {"spec": tuple(j["spec"]), "nodes": list(j["nodes"]),
-            "edges": [(e[0], e[1], e[2]) for e in j["edges"]]}
+    c = {"spec": tuple(j["spec"]), "nodes": list(j["nodes"]),
+         "edges": [(e[0], e[1], e[2]) for e in j["edges"]]}
+    if j.get("wdiv", 1) != 1:
+        c["wdiv"] = j["wdiv"]
+        c["nomodel"] = True
+    return c
 
 
 def close(impl, exact, tol=1e-9):
